@@ -38,6 +38,12 @@ def diff_cond(a, b) -> str:
     return ""
 
 
+def protected(node) -> bool:
+    """allow_delete switched off (after a re-open some classes give the flag back as 0 / 1 instead of a bool)."""
+    flag = node.get("allow_delete")
+    return flag is not None and not bool(flag)
+
+
 class OpError(Exception):
     """A library exception on an operation that is valid by construction."""
 
@@ -1352,18 +1358,18 @@ class TreeRun:
         n_groups = sum(uid in pg["props"] for pg in (wd.nodes[node["parent"]].get("pgs") or {}).values())
         self.parents.add(node["parent"])
         if (op.get("protect") and self.props and self.props <= {"C01", "C02"} and wd.descendants(uid)
-                and node.get("allow_delete") is not False):
+                and not protected(node)):
             # constructive: one descendant is protected first, then the ancestor is removed through the workspace
             desc = wd.descendants(uid)
             d_uid = desc[op["who"] % len(desc)]
             d_ent = wd.entity(d_uid)
-            if d_ent is not None and wd.nodes[d_uid].get("allow_delete") is not False:
+            if d_ent is not None and not protected(wd.nodes[d_uid]):
                 self.call(wd.nodes[d_uid]["cls"], setattr, d_ent, "allow_delete", False)
                 wd.nodes[d_uid]["allow_delete"] = False
             del d_ent
             op = {**op, "via": "ws"}
-        if op["via"] == "ws" and node.get("allow_delete") is not False and any(
-                wd.nodes[d].get("allow_delete") is False for d in wd.descendants(uid)):
+        if op["via"] == "ws" and not protected(node) and any(
+                protected(wd.nodes[d]) for d in wd.descendants(uid)):
             # removing an entity with a protected descendant: which part of the subtree goes before the refusal is not
             # fixed by any statement; what remains must still be one tree (C01: live == re-opened, C02: a valid file)
             if not self.props or not self.props <= {"C01", "C02"}:
@@ -1388,7 +1394,7 @@ class TreeRun:
             self.touch()
             return True
         if op["via"] == "ws":
-            if node.get("allow_delete") is False:
+            if protected(node):
                 pre = apisnap(wd.ws, with_listings=False)["nodes"]
                 raised = False
                 try:
